@@ -36,6 +36,11 @@ def prepare():
 # --------------------------------------------------------------------------------------
 # S3: simulated files and stdio
 # --------------------------------------------------------------------------------------
+class SimCrash(BaseException):
+    """The simulated process is killed (SIGKILL-like): nothing runs after this point, what
+    sits in user-space buffers is lost, only what reached the raw layer is on the disk."""
+
+
 class SimRaw(io.RawIOBase):
     """Raw file on the simulated disk: short reads/writes and errno faults happen here, below
     the real io.BufferedReader/Writer/TextIOWrapper stack."""
@@ -72,6 +77,14 @@ class SimRaw(io.RawIOBase):
     def write(self, b):
         fs = self.fs
         n = len(b)
+        if self.path in fs.dead:
+            return n  # a buffer of a killed process flushed by the garbage collector: lost
+        if fs.fault == "CRASH" and self.path == fs.fault_path and len(self.data) + n > fs.fault_at:
+            keep = max(0, fs.fault_at - len(self.data))
+            self.data.extend(bytes(b[:keep]))  # a torn write: part of the block made it
+            fs.fired["CRASH"] = fs.fired.get("CRASH", 0) + 1
+            fs.dead.add(self.path)
+            raise SimCrash()
         if fs.fault in ("ENOSPC", "EPIPE") and self.path == fs.fault_path:
             room = fs.fault_at - len(self.data)
             if room <= 0:
@@ -96,6 +109,7 @@ class SimFS:
         self.short = False
         self.fired = {}
         self.raw_writes = {}
+        self.dead = set()
 
     def put(self, path, text):
         self.files[path] = bytearray(text.encode())
@@ -106,6 +120,7 @@ class SimFS:
     def open(self, path, mode="r", bufsize=-1, encoding=None, errors=None):
         if "r" in mode and path not in self.files:
             raise FileNotFoundError(errno.ENOENT, "No such file or directory", path)
+        self.dead.discard(path)
         raw = SimRaw(self, path, mode)
         if "r" in mode:
             buf = io.BufferedReader(raw, buffer_size=64)
@@ -130,12 +145,23 @@ class Proc:
         self.exception = None
 
 
+def _killed(fs, proc):
+    """SIGKILL-like end: no (further) interpreter shutdown, what sits in buffers is lost."""
+    proc.status = -9
+    for fobj in fs.opened:
+        if isinstance(getattr(fobj, "name", None), str):
+            fs.dead.add(fobj.name)
+    fs.dead.add("<stdout>")
+    fs.opened = []
+
+
 def run_process(fs, argv, stdin_text="", order=0, clock=0):
     cli = _m["cli"]
     argparse = _m["argparse"]
     proc = Proc()
     old = (sys.argv, sys.stdin, sys.stdout, sys.stderr, getattr(argparse, "open", None))
     fs.opened = []
+    fs.dead.discard("<stdout>")
     fs.files["<stdout>"] = bytearray()
     out_raw = SimRaw(fs, "<stdout>", "w", name="<stdout>")
     stdout = io.TextIOWrapper(io.BufferedWriter(out_raw, buffer_size=256), encoding="utf-8")
@@ -155,23 +181,28 @@ def run_process(fs, argv, stdin_text="", order=0, clock=0):
             proc.status = 0 if code is None else (code if isinstance(code, int) else 1)
         except HarnessError:
             raise
+        except SimCrash:
+            _killed(fs, proc)
         except BaseException as exc:  # noqa: BLE001 - an uncaught exception ends a process with 1
             proc.exception = exc
             proc.status = 1
             stderr.write("".join(traceback.format_exception_only(type(exc), exc)))
         # interpreter shutdown: files the program never closed are flushed and closed,
         # errors at that point are swallowed (CPython prints 'Exception ignored')
-        for fobj in fs.opened:
-            try:
-                if not fobj.closed:
-                    fobj.close()
-            except OSError:
-                pass
         try:
-            stdout.flush()
-        except OSError:
-            if proc.status == 0:
-                proc.status = 120
+            for fobj in fs.opened:
+                try:
+                    if not fobj.closed:
+                        fobj.close()
+                except OSError:
+                    pass
+            try:
+                stdout.flush()
+            except OSError:
+                if proc.status == 0:
+                    proc.status = 120
+        except SimCrash:
+            _killed(fs, proc)  # the kill may land while buffers are flushed at exit
     finally:
         sys.argv, sys.stdin, sys.stdout, sys.stderr = old[:4]
         if old[4] is None:
@@ -238,7 +269,7 @@ def _case(draw, pid, tier):
         }
     if draw(st.integers(0, 3)) == 0:
         case["fault"] = {
-            "kind": draw(st.sampled_from(["ENOSPC", "EPIPE", "EIO"])),
+            "kind": draw(st.sampled_from(["ENOSPC", "EPIPE", "EIO", "CRASH", "CRASH"])),
             "at": draw(st.integers(0, 1500)),
             "target": draw(st.sampled_from(["any", "all"])),
         }
@@ -430,9 +461,9 @@ def execute(case, focus=None):
         if to_stdout:
             run.probe("reconcile_to_stdout")
         where = f"reconcile {algo} --solutions {policy}"
-        faulted = any(k in fired for k in ("ENOSPC", "EPIPE", "EIO"))
+        faulted = any(k in fired for k in ("ENOSPC", "EPIPE", "EIO", "CRASH"))
         for k, n in fired.items():
-            if k in ("ENOSPC", "EPIPE", "EIO"):
+            if k in ("ENOSPC", "EPIPE", "EIO", "CRASH"):
                 run.fault("F3_" + k, n)
         if ORACLE.permuted:
             run.probe("order_permuted", ORACLE.permuted)
@@ -632,7 +663,9 @@ def describe(pid):
                 "other cost options in the same interpreter, "
                 "draw on the first written lines (file / stdout+tikz / pdf through the simulated "
                 "TeX peer), the error path, optional short raw reads/writes and one errno fault "
-                "(ENOSPC / EPIPE on the output, EIO on the input) in one of the processes. "
+                "(ENOSPC / EPIPE on the output, EIO on the input, or the process killed at a drawn "
+                "byte of its output: buffers lost, possibly a torn last line) in one of the "
+                "processes. "
                 "distinct = distinct case digest; every run drives several processes and is "
                 "counted non-trivial when at least one oracle comparison ran.",
         "real": ["superrec2.cli (argparse wiring, read_input, call_algorithm, dump_results, draw "
@@ -649,7 +682,7 @@ def describe(pid):
             "the stdout draw path is used with an explicit 'tikz' type",
         ],
         "probes_expected": ["order_permuted", "several_solutions", "error_path", "short_io",
-                            "F3_ENOSPC", "F3_EPIPE", "F3_EIO", "F5_clock_jump", "draw_file",
+                            "F3_ENOSPC", "F3_EPIPE", "F3_EIO", "F3_CRASH", "F5_clock_jump", "draw_file",
                             "draw_stdout", "draw_pdf", "partially_named", "unnamed_ancestors",
                             "species_inferred_from_names", "stdin_input", "polytomy_input",
                             "prefix_checked", "reconcile_to_stdout", "large_costs",
